@@ -151,6 +151,7 @@ func (g *Storage) Fetch(ctx context.Context, br blob.Ref) (io.ReadCloser, uint32
 		g.log("Fetch", n, "injected", Event{"b": g.rk(br)})
 		return nil, 0, ErrInjected
 	}
+	defer g.P.effect()()
 	b, ok := g.B.Get(br)
 	if !ok {
 		if !g.Quiet {
@@ -177,6 +178,7 @@ func (g *Storage) SubFetch(ctx context.Context, br blob.Ref, offset, length int6
 	if offset < 0 || length < 0 {
 		return nil, blob.ErrNegativeSubFetch
 	}
+	defer g.P.effect()()
 	b, ok := g.B.Get(br)
 	if !ok {
 		if !g.Quiet {
@@ -217,6 +219,7 @@ func (g *Storage) ReceiveBlob(ctx context.Context, br blob.Ref, source io.Reader
 		g.log("ReceiveBlob", n, "srcerr", Event{"b": g.rk(br)})
 		return blob.SizedRef{}, err
 	}
+	defer g.P.effect()()
 	g.B.Put(br, data)
 	switch kind {
 	case "after":
@@ -301,6 +304,7 @@ func (g *Storage) RemoveBlobs(ctx context.Context, blobs []blob.Ref) error {
 		g.log("RemoveBlobs", n, "injected", Event{"bs": g.rks(blobs)})
 		return ErrInjected
 	}
+	defer g.P.effect()()
 	if kind == "partial" {
 		// only the first half of the blobs is removed before the failure / death
 		h := (len(blobs) + 1) / 2
